@@ -6,7 +6,7 @@ package peerset
 //
 // registry.json rewrites, at check time and from the current tree:
 //   time.Now()                                   -> c30Now(ps)            (receiver in scope)
-//   time.Now() in newNode / newPeerSet           -> c30NowG()             (no receiver: context by goroutine)
+//   time.Now() in newNode / newPeerSet           -> c30Unowned(); newNode(len(ps.sets)) -> c30NewNode(ps, len(ps.sets))
 //   for peerID, node := range ps.nodes {         -> iteration over c30OrderNodes(ps, ps.nodes)
 //   for reservePeer := range ps.reservedNode {   -> iteration over c30OrderReserved(ps, ps.reservedNode)
 //   removeReservedPeers(setID, toRemove...)      -> toRemove ordered by c30OrderRemove(ps, toRemove)
@@ -14,7 +14,6 @@ package peerset
 // of the map (resp. elements of the slice), i.e. one of the iteration orders Go could have produced.
 
 import (
-	"runtime"
 	"sort"
 	"sync"
 	"time"
@@ -30,32 +29,9 @@ type c30Ctx struct {
 	rank map[peer.ID]int
 	// sensitive is set when an iteration was reached whose result can depend on the order.
 	sensitive bool
-	goid      uint64
 }
 
-var (
-	c30ByObj sync.Map // *PeerSet / *PeersState -> *c30Ctx
-	c30ByG   sync.Map // goroutine id -> *c30Ctx
-)
-
-func c30Goid() uint64 {
-	var buf [64]byte
-	n := runtime.Stack(buf[:], false)
-	var id uint64
-	for _, c := range buf[len("goroutine "):n] {
-		if c < '0' || c > '9' {
-			break
-		}
-		id = id*10 + uint64(c-'0')
-	}
-	return id
-}
-
-// c30BindG makes ctx the context of the calling goroutine (used by the two sites without receiver).
-func c30BindG(ctx *c30Ctx) {
-	ctx.goid = c30Goid()
-	c30ByG.Store(ctx.goid, ctx)
-}
+var c30ByObj sync.Map // *PeerSet / *PeersState -> *c30Ctx
 
 func c30Register(ctx *c30Ctx, ps *PeerSet) {
 	c30ByObj.Store(ps, ctx)
@@ -67,7 +43,6 @@ func c30Unregister(ctx *c30Ctx, ps *PeerSet) {
 		c30ByObj.Delete(ps)
 		c30ByObj.Delete(ps.peerState)
 	}
-	c30ByG.CompareAndDelete(ctx.goid, ctx)
 }
 
 func c30CtxOf(obj any) *c30Ctx {
@@ -81,12 +56,21 @@ func c30CtxOf(obj any) *c30Ctx {
 // c30Now replaces time.Now() where the PeerSet / PeersState receiver is in scope.
 func c30Now(obj any) time.Time { return c30CtxOf(obj).now }
 
-// c30NowG replaces time.Now() in newNode and newPeerSet.
-func c30NowG() time.Time {
-	if v, ok := c30ByG.Load(c30Goid()); ok {
-		return v.(*c30Ctx).now
+// c30Unowned replaces time.Now() in newPeerSet and newNode, which have no receiver: it returns the
+// zero time, which the next statement executed overwrites with the owned clock (c30Fresh for
+// newPeerSet; c30NewNode, which replaces the calls of newNode, for new nodes).  The harness
+// asserts that no zero time survives in the state.
+func c30Unowned() time.Time { return time.Time{} }
+
+// c30NewNode replaces newNode(len(ps.sets)) wherever a PeersState receiver is in scope: the node gets
+// the creation time newNode would have read from the clock.
+func c30NewNode(ps *PeersState, n int) *node {
+	nd := newNode(n)
+	now := c30CtxOf(ps).now
+	for i := range nd.lastConnected {
+		nd.lastConnected[i] = now
 	}
-	panic("verif C30: clock not owned: no context bound to this goroutine")
+	return nd
 }
 
 func c30Sorted(ctx *c30Ctx, keys []peer.ID, sensitive bool) []peer.ID {
